@@ -10,6 +10,11 @@ git -C /repo worktree add --detach $WT HEAD >/dev/null 2>&1 || exit 1
 : > $OUT
 for id in ${1:-$(ls /tmp/wt/out)}; do
   d=/tmp/wt/out/$id; pkg=${DIR[$id]}
+  if [ -z "$pkg" ] && [ -f $d/notes.md ]; then
+    # round 5 on: the sub-agent states the directory in notes.md ("demo package dir: <dir>")
+    pkg=$(grep -i -o "demo package dir: *[\`]*[A-Za-z0-9_/.-]*" $d/notes.md | head -1 | sed 's/.*: *//; s/`//g; s#^\./##; s#/$##')
+  fi
+  if [ -z "$pkg" ] || [ ! -d "$WT/$pkg" ]; then echo -e "$id\tNOPKG($pkg)" >> $OUT; continue; fi
   P=$d/patch.diff; [ -f $d/patch.rebased.diff ] && P=$d/patch.rebased.diff
   cd $WT && git checkout -q -- . && git clean -fdq
   if ! git apply $P 2>/dev/null; then echo -e "$id\tNOAPPLY" >> $OUT; continue; fi
